@@ -178,6 +178,11 @@ def external_call(E, st, fr, n, rt, a):
             return r
         if n.startswith('llvm.masked.'): raise Inconclusive('intrinsic ' + n)
         if n.startswith('llvm.x86.'): return x86(E, st, n, a)
+        if n.startswith('llvm.load.relative'):
+            base = need_int(a[0]); off = need_int(a[1])
+            rel = E.load_bytes(st, (base + off) & M64, 4)
+            rel = need_int(rel)
+            return (base + sx(rel, 32)) & M64
         if n.startswith('llvm.expect'): return a[0]
         if n in ('llvm.trap', 'llvm.debugtrap'): raise Violation('trap', 'llvm.trap reached (abort)')
         if n.startswith('llvm.stacksave'): return 0
@@ -231,6 +236,23 @@ def external_call(E, st, fr, n, rt, a):
             if type(c) is not int: c = need_int(c)
             if c == ch: return p_ + k
         return 0
+    if n == '_ZNSt7__cxx1112basic_stringIcSt11char_traitsIcESaIcEE9_M_createERmm':
+        # std::string::_M_create(size_type& capacity, size_type old_capacity) -- libstdc++ contract: grow policy, allocate capacity+1
+        capp = need_int(a[1]); old = need_int(a[2]); cap = need_int(E.load_bytes(st, capp, 8))
+        if cap > (1 << 62): raise Violation('throw', 'std::string length_error')
+        if cap > old and cap < 2 * old: cap = 2 * old
+        E.store_bytes(st, capp, 8, cap)
+        return E.alloc_heap(st, cap + 1, 'std::string(%d)' % cap)
+    if n in ('_ZNSt7__cxx1112basic_stringIcSt11char_traitsIcESaIcEEC2EPKcmRKS3_', '_ZNSt7__cxx1112basic_stringIcSt11char_traitsIcESaIcEEC1EPKcmRKS3_'):
+        # std::string(const char* s, size_t n, const allocator&): libstdc++ SSO layout {ptr, size, union{buf[16], capacity}}
+        this = need_int(a[0]); src = need_int(a[1]); ln = need_int(a[2])
+        if ln <= 15: data = this + 16
+        else:
+            data = E.alloc_heap(st, ln + 1, 'std::string(%d)' % ln); E.store_bytes(st, this + 16, 8, ln)
+        E.store_bytes(st, this, 8, data); E.store_bytes(st, this + 8, 8, ln)
+        if ln: memcpy(E, st, data, src, ln)
+        E.store_bytes(st, data + ln, 1, 0)
+        return None
     if n == '__assert_fail':
         raise Violation('assert', 'sonic_assert failed: %s (%s:%s)' % (cstring(E, st, a[0]), cstring(E, st, a[1]).split('/')[-1], a[2]))
     if n in ('abort', 'exit', '_exit', '__cxa_pure_virtual', '_ZSt9terminatev'):
@@ -239,6 +261,7 @@ def external_call(E, st, fr, n, rt, a):
         raise Violation('throw', 'libstdc++ ' + n + ' called')
     if n in ('__cxa_allocate_exception', '__cxa_throw'): raise Violation('throw', 'exception thrown')
     if n == '__cxa_atexit': return 0
+    if n == '__cpu_indicator_init': return None
     if n in ('_ZNSt8ios_base4InitC1Ev', '_ZNSt8ios_base4InitD1Ev'): return None
     if n == '__cxa_guard_acquire':
         v = E.load_bytes(st, a[0], 1)
@@ -487,6 +510,27 @@ def x86(E, st, n, a):
     raise Inconclusive('x86 intrinsic ' + n)
 
 
+def dec2double_bits(txt):
+    """nearest-even IEEE-754 double of a decimal text, by exact rational arithmetic (the C04 oracle)."""
+    from fractions import Fraction
+    neg = txt.startswith('-')
+    x = abs(Fraction(txt))
+    sign = (1 << 63) if neg else 0
+    if x == 0: return sign
+    e = x.numerator.bit_length() - x.denominator.bit_length() - 53     # x / 2^e is roughly 2^53
+    while x / Fraction(2) ** e >= (1 << 53): e += 1
+    while x / Fraction(2) ** e < (1 << 52): e -= 1
+    if e < -1074: e = -1074                                              # subnormal: fixed exponent
+    y = x / Fraction(2) ** e
+    q = y.numerator // y.denominator; r = y - q
+    if r > Fraction(1, 2) or (r == Fraction(1, 2) and (q & 1)): q += 1
+    if q == (1 << 53): q >>= 1; e += 1
+    if q < (1 << 52): return sign | q                                    # subnormal (or zero)
+    bexp = e + 1075
+    if bexp >= 0x7ff: return sign | (0x7ff << 52)
+    return sign | (bexp << 52) | (q & ((1 << 52) - 1))
+
+
 # ---------------------------------------------------------------- harness API
 def verif_api(E, st, fr, n, a):
     if n == 'verif_symbolic':
@@ -551,6 +595,16 @@ def verif_api(E, st, fr, n, a):
         addr = need_int(a[0]); k = need_int(a[1])
         if k: E.alloc_at(st, addr, k, 'page_slack', kind='slack')
         return None
+    if n == 'verif_oracle_text2double':
+        # exact oracle: nearest-even double of a decimal text (python's float() is correctly rounded; checked against Fraction)
+        p_ = need_int(a[0]); ln = need_int(a[1])
+        txt = bytes(need_int(E.load_bytes(st, p_ + i, 1)) for i in range(ln)).decode('latin1')
+        bits = dec2double_bits(txt)
+        import struct
+        try: f = float(txt)
+        except OverflowError: f = float('inf')
+        if struct.unpack('<Q', struct.pack('<d', f))[0] != bits: raise Inconclusive('oracle self-check failed for ' + txt)
+        return bits
     if n == 'verif_is_undef_dependent':
         x = a[0]
         if type(x) is int: return 0
